@@ -1,14 +1,40 @@
-import PcfgVerif.Model.ExpandSpec
+import PcfgVerif.Properties.ExpandCore
 /-!
 # C04 — a pre-terminal expands to exactly the product of its terminal groups
-(the refinement theorems `recGuesses_none` / `recGuesses_limit` are added when proved)
+
+`productSpec` is the list comprehension "one value from each chosen group, in structure order, every
+capitalisation mask applied to the tail of what precedes it", in nested-loop order; `okSpec` says
+that no lookup on any path raises (true of what the loader builds: each `C<n>` directly follows an
+`A<n>` whose values have `n` characters).  That all values of a group share the file probability is
+`C07`'s `loadFromFile_writeFile`.
 -/
 namespace Pcfg.C04
+
+/-- the lines written for a non-Markov pre-terminal are exactly the product of its groups, in order,
+each combination once, and the reported count is the number of lines -/
+theorem C04_expand (upper : Char → List Char) (g : EGrammar) (omen : Nat → Option (List Str))
+    (pt : PT) (hpt : pt ≠ []) (hok : okSpec upper g [] pt = true) :
+    createGuesses upper g omen pt none =
+      ⟨productSpec upper g [] pt, (productSpec upper g [] pt).length, false⟩ :=
+  recGuesses_none upper g omen [] pt hpt hok
+
+/-- a Markov pre-terminal expands to exactly the strings of its OMEN level, in generator order
+(`Omen.level_exact` says which strings these are), and the count is their number -/
+theorem C04_markov (gs : List Str) : omenLoop gs none = ⟨gs, gs.length, false⟩ := omenLoop_none gs
+
+/-- every pre-terminal produces at least one guess -/
+theorem C04_nonempty (upper : Char → List Char) (g : EGrammar) (pt : PT)
+    (hok : okSpec upper g [] pt = true) : 0 < (productSpec upper g [] pt).length :=
+  productSpec_pos upper g [] pt hok
 
 /-- dispatch of `_recursive_guesses` on the first letter of the variable name -/
 theorem C04_dispatch : Generated.Expand.isMarkov 'M' = true ∧ Generated.Expand.isCase 'C' = true ∧
     (∀ c, c ≠ 'M' → Generated.Expand.isMarkov c = false) ∧ (∀ c, c ≠ 'C' → Generated.Expand.isCase c = false) ∧
     Generated.Expand.maskKeeps 'L' = true ∧ (∀ c, c ≠ 'L' → Generated.Expand.maskKeeps c = false) := by
   simp [Generated.Expand.isMarkov, Generated.Expand.isCase, Generated.Expand.maskKeeps, CmpOp.chr]
+
+/-- non-vacuity: `A2 C2 D1` with two words, two masks, two digits gives the eight combinations -/
+example : okSpec ExpandExample.up ExpandExample.gr [] ExpandExample.pt0 = true ∧
+    (productSpec ExpandExample.up ExpandExample.gr [] ExpandExample.pt0).length = 8 := by decide
 
 end Pcfg.C04
